@@ -133,11 +133,12 @@ def MtExtShape (arrays : List DataArray) (t : MultiTag) : Option (List Nat) :=
 theorem mem_checkMultiTag (arrays : List DataArray) (t : MultiTag) (m : Msg) :
     m ∈ checkMultiTag arrays t ↔
       m ∈ checkEntity t.ent ∨
-      (m = .plain .NoPositions ∧ (MtPosShape arrays t).bind firstLen = some 0) ∨
-      (m = .plain .PositionsExtentsMismatch ∧
+      (m = .plain .NoPositions ∧
+         (MtPosShape arrays t = none ∨ (MtPosShape arrays t).bind firstLen = some 0)) ∨
+      (m = .plain .PositionsExtentsMismatch ∧ MtPosShape arrays t ≠ none ∧
          ∃ es, MtExtShape arrays t = some es ∧ firstLen es ≠ some 0 ∧ MtPosShape arrays t ≠ some es) ∨
       (t.refs ≠ [] ∧
-        ((m = .plain .PositionsDimensionMismatch ∧
+        ((m = .plain .PositionsDimensionMismatch ∧ MtPosShape arrays t ≠ none ∧
             ∃ da ∈ refArrays arrays t.refs, (MtPosShape arrays t).bind secondDim ≠ some da.shape.length) ∨
          (m = .plain .ExtentsDimensionMismatch ∧
             ∃ es, MtExtShape arrays t = some es ∧ firstLen es ≠ some 0 ∧
@@ -151,12 +152,18 @@ theorem mem_checkMultiTag (arrays : List DataArray) (t : MultiTag) (m : Msg) :
   generalize (∃ i ft, t.features[i]? = some ft ∧ m ∈ checkFeature arrays ft i) = F
   generalize (m ∈ refUnitMsgs t.units (refArrays arrays t.refs)) = R
   generalize (∃ u ∈ t.units, ¬u = [] ∧ isSi u = false) = U
-  cases he : Option.map (fun x => x.shape) (t.extents.bind fun k => arrays[k]?) with
-  | none => simp; grind
-  | some es =>
-    by_cases h0 : firstLen es = some 0
-    · simp [h0]; grind
-    · simp [h0]; grind
+  cases hp : Option.map (fun x => x.shape) (t.positions.bind fun k => arrays[k]?) with
+  | none =>
+    cases he : Option.map (fun x => x.shape) (t.extents.bind fun k => arrays[k]?) with
+    | none => simp; grind
+    | some es => simp; grind
+  | some ps =>
+    cases he : Option.map (fun x => x.shape) (t.extents.bind fun k => arrays[k]?) with
+    | none => simp; grind
+    | some es =>
+      by_cases h0 : firstLen es = some 0
+      · simp [h0]; grind
+      · simp [h0]; grind
 
 /-! ## sections -/
 
